@@ -197,7 +197,11 @@ def check(ctx):
                 ok = agg is not None and len(agg["ops"]) == 2
             if ok and agg:
                 el_ = [o_ for o_ in agg["ops"] if lib.originates_from_call(rem, o_, L.driver)]
-                id_ = [o_ for o_ in agg["ops"] if origins(rem, o_) and all(o[0] == "call" and o[-1] == ".id" for o in origins(rem, o_))]
+                # the token's id: read back from the token, or the very value the token was built with (`new_from(id, ..)`)
+                nf_ = [t_ for b_, t_, fr_ in rem.iter_calls() if fr_ and lib.tail(mir.fn_name(fr_), 2) == "RevokeToken::new_from"]
+                given_ = {tuple(o) for t_ in nf_ for o in origins(rem, t_["args"][0])} if len(nf_) == 1 else set()
+                id_ = [o_ for o_ in agg["ops"] if origins(rem, o_) and (all(o[0] == "call" and o[-1] == ".id" for o in origins(rem, o_))
+                                                                      or (given_ and {tuple(o) for o in origins(rem, o_)} == given_))]
                 ok = len(el_) == 1 and len(id_) == 1 and el_[0] is not id_[0]
         ctx.check(ok, "C16.c", "EntityReactor::remove:revoke-then-cleanup-per-entity", "%s:%d" % (rem.file, rem.line),
                   "revoke is queued before a clean-up syscall (token.id, entity) for every unique entity of the token",
